@@ -95,6 +95,9 @@ REF_PROGRAMS = {
     # the finished member; the end of the scope still lists it)
     "group-scope-member-finishes-early": "flow fa\n  match E1()\n\nflow fb\n  match E2()\n\nflow fc\n  match E3()\n\nflow main\n  await (fa and fb) or fc\n  send Echo()\n  match Never()\n",
     "when-group-member-finishes-early": "flow fa\n  match E1()\n\nflow fb\n  match E2()\n\nflow main\n  when fa and fb\n    send Echo()\n  or when E3()\n    send Echo2()\n  match Never()\n",
+    # a member read through attribute syntax out of a dict literal is a list of attribute-style dicts (`$data.people`); it is kept in a variable
+    "attribute-style-dicts-in-a-list": "flow main\n  $data = {\"people\": [{\"name\": \"Ann\"}]}\n  $p = $data.people\n  match E1()\n  send Echo(n=$p[0].name, a=$p[0].age)\n  match Never()\n",
+    "attribute-style-dict-in-a-variable": "flow main\n  $data = {\"who\": {\"name\": \"Ann\"}}\n  $w = $data.who\n  match E1()\n  send Echo(n=$w.name, a=$w.age)\n  match Never()\n",
     "await-then-finish": "flow c\n  match E1()\n  match E2()\n\nflow d\n  match E1()\n\nflow main\n  start c\n  await d\n  send Echo()\n  match E3()\n  send Echo2()\n  match Never()\n",
 }
 
